@@ -2,8 +2,8 @@
    Each is closed by `exact <proof>` and followed by Print Assumptions.
    ss = the suites in the order the Go map range visits them (any order), cs = the config cases
    (a list standing for a set), mode = the run mode; all three are universally quantified. *)
-From Coq Require Import Permutation.
-From V Require Import C07_Model C07_Spec C07_Proofs C07_Names.
+From Coq Require Import Permutation Sorted.
+From V Require Import C07_Model C07_Spec C07_Proofs C07_Names C07_Join C07_Unique C07_Order.
 Open Scope N_scope.
 
 (* A permutation exists exactly when the suite's mode admits the run mode, every directive admits
@@ -123,16 +123,104 @@ Proof. exact axis_names_injective_proof. Qed.
 Print Assumptions axis_names_injective.
 
 (* ... hence the name components are an injective function of exactly the open axes (and the test
-   name) on the cases a suite admits: equal components, same test stream type => the same config case.
-   _partial: stated on the component list; the last step through path.Join (components of suite and
-   test names free of "/", "." and "..") is not proved. *)
-Theorem components_injective_partial : forall s c c' t t',
+   name) on the cases a suite admits: equal components, same test stream type => the same config case *)
+Theorem components_injective : forall s c c' t t',
   admits s c -> admits s c' -> case_declared c -> case_declared c' ->
   t_stream t = c_stream c -> t_stream t' = c_stream c' ->
   spec_components s c t = spec_components s c' t' ->
   t_name t = t_name t' /\ (t_stream t = t_stream t' -> c = c').
 Proof. exact components_injective_proof. Qed.
-Print Assumptions components_injective_partial.
+Print Assumptions components_injective.
+
+(* path.Join / path.Clean (the model the c07.join cases compare with Go's on every run): on a
+   non-empty list of well-formed segments (non-empty, no "/", not "." or "..") Join is plain
+   "/"-joining, splitting at "/" gives the segments back, and so Join is injective there *)
+Theorem path_join_segments : forall l, l <> [] -> Forall good_seg l ->
+  path_join l = join 47 l /\ split_on 47 (path_join l) = l.
+Proof. exact path_join_segments_proof. Qed.
+Print Assumptions path_join_segments.
+
+Theorem path_join_injective : forall l l', l <> [] -> l' <> [] ->
+  Forall good_seg l -> Forall good_seg l' -> path_join l = path_join l' -> l = l'.
+Proof. exact path_join_injective_proof. Qed.
+Print Assumptions path_join_injective.
+
+(* "Its full name is unique", constructively (no duplicate check of the library is used): for any
+   list of suites with pairwise distinct, well-formed names (one segment each, not a gRPC marker),
+   whose test names are clean relative paths ("unary/success"; every segment well formed) and
+   distinct within their suite, and any admitted config cases with declared enum numbers, the full
+   name determines the suite, the config case (all ten fields) and the test case.  Independent of
+   the config-case set and of the run mode. *)
+Theorem full_name_injective : forall ss, NoDup (map s_name ss) -> Forall wf_suite ss ->
+  forall s s' c c' t t', In s ss -> In s' ss -> In t (s_cases s) -> In t' (s_cases s') ->
+  admits s c -> admits s' c' -> case_declared c -> case_declared c' ->
+  t_stream t = c_stream c -> t_stream t' = c_stream c' ->
+  spec_name s c t = spec_name s' c' t' -> s = s' /\ c = c' /\ t = t'.
+Proof. exact full_name_injective_proof. Qed.
+Print Assumptions full_name_injective.
+
+(* For ANY names (hostile ones included: "/" in a suite name, empty / "." / ".." segments that
+   path.Clean rewrites, test names repeated across stream types, repeated relevant values): if two
+   different (suite, config case, test case) triples admitted by the mode and the directives get the
+   same full name, no library is built - the collision is the duplicate-definition error, never a
+   silent merge of two permutations under one name. *)
+Theorem colliding_names_rejected : forall ss cs mode s s' c c' t t',
+  In s ss -> In s' ss -> mode_admits s mode -> mode_admits s' mode ->
+  In c cs -> In c' cs -> admits s c -> admits s' c' ->
+  In t (s_cases s) -> In t' (s_cases s') -> t_stream t = c_stream c -> t_stream t' = c_stream c' ->
+  (s, c, t) <> (s', c', t') ->
+  spec_name s c t = spec_name s' c' t' ->
+  new_library ss cs mode = Err.
+Proof. exact colliding_names_rejected_proof. Qed.
+Print Assumptions colliding_names_rejected.
+
+(* gRPC-peer variants: if the names of a list of permutations are pairwise distinct and well formed
+   (segments well formed and none of them a marker, the name ends in the segments of the simple
+   name), then ALL names allPermutations hands out - unmarked, "(grpc client impl)", "(grpc server
+   impl)", "(grpc impls)" - are pairwise distinct: no permutation is issued under a name another
+   one already has ... *)
+Theorem grpc_names_distinct : forall L, NoDup (map p_name L) -> Forall name_wf L ->
+  forall cl sv, NoDup (map p_name (all_permutations cl sv L)).
+Proof. exact grpc_names_distinct_proof. Qed.
+Print Assumptions grpc_names_distinct.
+
+(* ... and every library built from well-formed suites is such a list *)
+Theorem library_grpc_names_distinct : forall ss cs mode L, new_library ss cs mode = Ok L ->
+  Forall wf_suite ss -> (forall c, In c cs -> case_declared c) ->
+  Forall name_wf L /\ forall cl sv, NoDup (map p_name (all_permutations cl sv L)).
+Proof.
+  intros ss cs mode L H W D. split;
+    [exact (library_names_wf_proof ss cs mode L H W D)|exact (library_grpc_names_distinct_proof ss cs mode L H W D)].
+Qed.
+Print Assumptions library_grpc_names_distinct.
+
+(* stable across runs, output ORDER.  The only place where the code sorts: serverInstancesSlice(lib,
+   sorted=true) sort.Slice's the keys of casesByServer; its less function is a total order, so for
+   every visiting order of the map the sorted slice is the same list, and it is the only sorted
+   arrangement of the keys (whatever sorting algorithm produced it) *)
+Theorem instances_sorted_stable : forall order order', Permutation order order' ->
+  sorted_instances order = sorted_instances order' /\
+  forall out, Permutation out (map fst (group_cases order')) -> StronglySorted inst_le out ->
+    out = sorted_instances order.
+Proof. exact instances_sorted_stable_proof. Qed.
+Print Assumptions instances_sorted_stable.
+
+(* nothing else is sorted: allPermutations returns the permutations in the visiting order of the map
+   (then the marked copies); as a multiset it does not depend on that order ... *)
+Theorem all_permutations_stable : forall cl sv order order', Permutation order order' ->
+  Permutation (all_permutations cl sv order) (all_permutations cl sv order') /\
+  (exists rest, all_permutations cl sv order = order ++ rest) /\
+  all_permutations false false order = order.
+Proof. exact all_permutations_stable_proof. Qed.
+Print Assumptions all_permutations_stable.
+
+(* ... and so do the groups: the same keys, and under each key the same permutations, listed in
+   the visiting order (`groups`: = filter ... order) *)
+Theorem groups_stable : forall order order', Permutation order order' ->
+  (forall k, In k (map fst (group_cases order)) <-> In k (map fst (group_cases order'))) /\
+  (forall k l l', In (k, l) (group_cases order) -> In (k, l') (group_cases order') -> Permutation l l').
+Proof. exact groups_stable_proof. Qed.
+Print Assumptions groups_stable.
 
 (* ---- non-vacuity ---- *)
 Definition ex_tc := mkT (bs "unary/success") 1 [] [] false false.
@@ -191,3 +279,66 @@ Example ex_grpc_some :
 Proof. vm_compute. reflexivity. Qed.
 Example ex_applicable : grpc_applicable false true (mkPerm (bs "S/TLS:false/t") (bs "t") 2 3 1 2 1 [] false [] [] 0 false false).
 Proof. unfold grpc_applicable; simpl. intuition congruence. Qed.
+
+(* ---- names: well-formedness is inhabited by the shipped style of names; the hostile classes ---- *)
+Example ex_wf_suite : wf_suite ex_suite.
+Proof.
+  unfold wf_suite, wf_test. split; [apply name_segb_iff; vm_compute; reflexivity|]. split.
+  - repeat constructor; apply name_segb_iff; vm_compute; reflexivity.
+  - repeat constructor. simpl. tauto.
+Qed.
+Example ex_join_plain : path_join [[]; bs "Basic"; bs "TLS:false"; bs "unary/success"] = bs "Basic/TLS:false/unary/success".
+Proof. vm_compute. reflexivity. Qed.
+
+(* hostile names that collide, each rejected: a segment Clean rewrites ("./t" = "t", "x/../t" = "t"),
+   a suite name with "/" ("A" + "b/c" = "A/b" + "c") *)
+Definition ex_fixed (name : bytes) (tcs : list tcase) := mkSuite name 0 [1] [2] [1] [1] 0 true false false false tcs.
+Definition ex_tls_case := mkCase 2 1 1 1 1 true false false false 0.
+Example ex_dot_segment_rejected :
+  spec_name (ex_fixed (bs "S") []) ex_tls_case (mkT (bs "t") 1 [] [] false false) =
+  spec_name (ex_fixed (bs "S") []) ex_tls_case (mkT (bs "./t") 1 [] [] false false) /\
+  new_library [ex_fixed (bs "S") [mkT (bs "t") 1 [] [] false false; mkT (bs "./t") 1 [] [] false false]] [ex_tls_case] 1 = Err /\
+  new_library [ex_fixed (bs "S") [mkT (bs "t") 1 [] [] false false; mkT (bs "x/../t") 1 [] [] false false]] [ex_tls_case] 1 = Err.
+Proof. vm_compute. repeat split. Qed.
+Example ex_slash_in_suite_name_rejected :
+  new_library [ex_fixed (bs "A") [mkT (bs "b/c") 1 [] [] false false]; ex_fixed (bs "A/b") [mkT (bs "c") 1 [] [] false false]] [ex_tls_case] 1 = Err /\
+  (exists lib, new_library [ex_fixed (bs "A") [mkT (bs "b/c") 1 [] [] false false]] [ex_tls_case] 1 = Ok lib) /\
+  (exists lib, new_library [ex_fixed (bs "A/b") [mkT (bs "c") 1 [] [] false false]] [ex_tls_case] 1 = Ok lib).
+Proof. vm_compute. repeat split; eexists; reflexivity. Qed.
+
+(* the one collision class that is NOT rejected: a test-name (or suite-name) segment that is a gRPC
+   marker.  The library is built (its own names are distinct), but the name issued for the run of
+   "S/TLS:false/t" against the gRPC server is the name "S/TLS:false/(grpc server impl)/t" of another
+   permutation.  The c07.lib cases carry the number of names issued twice; see the notes. *)
+Definition ex_marker_suite := mkSuite (bs "S") 0 [2] [2] [1] [1] 0 false false false false
+  [mkT (bs "t") 1 [] [] false false; mkT (bs "(grpc server impl)/t") 1 [] [] false false].
+Example ex_marker_collision_not_rejected :
+  match new_library [ex_marker_suite] [mkCase 2 2 1 1 1 false false false false 0] 1 with
+  | Ok lib => NoDup (map p_name lib) /\ dup_count (map p_name (all_permutations false true lib)) = 1%nat /\
+            ~ Forall wf_suite [ex_marker_suite]
+  | Err => False
+  end.
+Proof.
+  vm_compute. split; [|split; [reflexivity|]].
+  - repeat constructor; simpl; intuition discriminate.
+  - intros H. inversion H as [|? ? (_ & F & _) _]; subst. inversion F as [|? ? _ F2]; subst.
+    inversion F2 as [|? ? W _]; subst. inversion W as [|? ? (_ & M) _]; subst. apply M. right; right; left; reflexivity.
+Qed.
+
+(* output order: the lists differ between two visiting orders, the sets do not *)
+Definition ex_p1 := mkPerm (bs "S/a") (bs "a") 1 1 1 1 1 [] false [] [] 0 false false.
+Definition ex_p2 := mkPerm (bs "S/b") (bs "b") 2 1 1 1 1 [] false [] [] 0 false false.
+Definition ex_p3 := mkPerm (bs "S/c") (bs "c") 2 1 1 1 1 [] false [] [] 0 false false.
+Example ex_order_shows :
+  all_permutations false false [ex_p1; ex_p2] <> all_permutations false false [ex_p2; ex_p1] /\
+  map fst (group_cases [ex_p1; ex_p2]) <> map fst (group_cases [ex_p2; ex_p1]) /\
+  map snd (group_cases [ex_p2; ex_p3]) <> map snd (group_cases [ex_p3; ex_p2]) /\
+  sorted_instances [ex_p2; ex_p1] = sorted_instances [ex_p1; ex_p2] /\
+  sorted_instances [ex_p1; ex_p2] = [mkInst 1 1 false false; mkInst 1 2 false false].
+Proof. vm_compute. repeat split; discriminate. Qed.
+Example ex_less_total_order_cases :
+  map (fun ab => inst_less (fst ab) (snd ab))
+    [ (mkInst 3 1 true true, mkInst 1 2 false false); (mkInst 1 2 false false, mkInst 3 1 true true);
+      (mkInst 1 1 false false, mkInst 1 1 true false); (mkInst 1 1 true false, mkInst 1 1 true true);
+      (mkInst 1 1 true true, mkInst 1 1 true false) ] = [true; false; true; true; false].
+Proof. vm_compute. reflexivity. Qed.
